@@ -16,6 +16,7 @@ from decimal import Decimal as D
 
 import basana as bs
 from basana.backtesting import exchange as ex, liquidity
+from basana.core.event_sources import trading_signal as _ts
 
 from mc.chooser import Chooser, explore
 from mc.framework import Result, h64, VERIF
@@ -121,6 +122,17 @@ def make_run(base, maxc, states=None):
 
         def mkh(i):
             async def h(ev):
+                if path == "signal" and competing:
+                    # one signal carrying every pair of the script; the signal handler walks get_pairs()
+                    if i == script[0][0] and ev.when == T(times[i][0]):
+                        s_ = _ts.BaseTradingSignal(ev.when)
+                        for (_src, dst) in script:
+                            s_.add_pair(PS[dst], bs.Position.LONG)
+                        for extra in range(npairs):  # every other pair too: more keys, more ways to order them
+                            if PS[extra] not in dict(s_.get_pairs()):
+                                s_.add_pair(PS[extra], bs.Position.LONG)
+                        sig.push(s_)
+                    return
                 if otype == "limit-cancel" and i == script[0][0] and to_cancel and ev.when > T(times[i][0]):
                     oid = to_cancel.pop()
                     await gates.suspend("pre-cancel")
@@ -138,7 +150,8 @@ def make_run(base, maxc, states=None):
             return h
 
         async def on_signal(s):
-            await place(PS.index(s.pair), "sig")
+            for p_, _pos in s.get_pairs():
+                await place(PS.index(p_), "sig")
 
         async def on_order(ev):
             if ev.order.amount_filled:
@@ -151,13 +164,27 @@ def make_run(base, maxc, states=None):
         async def passive(ev):
             await gates.suspend("rec")
 
+        harness_errors = []
+
+        def loud(fn):
+            # the dispatcher logs and swallows handler exceptions: a bug in the harness's own handlers must not hide
+            async def wrapper(ev):
+                try:
+                    return await fn(ev)
+                except asyncio.CancelledError:
+                    raise
+                except Exception as x:  # noqa
+                    harness_errors.append(f"{type(x).__name__}: {x}")
+                    raise
+            return wrapper
+
         def subscribe():
             for i in range(npairs):
                 if recorder == i:
-                    e.subscribe_to_bar_events(PS[i], passive)
-                e.subscribe_to_bar_events(PS[i], mkh(i))
-            sig.subscribe_to_trading_signals(on_signal)
-            e.subscribe_to_order_events(on_order)
+                    e.subscribe_to_bar_events(PS[i], loud(passive))
+                e.subscribe_to_bar_events(PS[i], loud(mkh(i)))
+            sig.subscribe_to_trading_signals(loud(on_signal))
+            e.subscribe_to_order_events(loud(on_order))
 
         def bar(i, t):
             p = D(100 + t + i)
@@ -181,6 +208,8 @@ def make_run(base, maxc, states=None):
         out, exc, loop = run_on_vloop(lambda loop: d.run(stop_signals=[]), on_quiescent=quiescent)
         if exc is not None:
             out = "raised:" + type(exc).__name__
+        if harness_errors:
+            raise RuntimeError("HARNESS-ERROR in a strategy handler of the C03 driver: " + harness_errors[0])
         sub_at = {oid: at for (_, oid, at, _) in subs}
         idx = {oid: k for (k, oid, _, _) in subs}
         look = [(idx[f[0]], f[1], sub_at[f[0]]) for f in fills if f[0] in sub_at and f[1] <= sub_at[f[0]]]
